@@ -332,6 +332,63 @@ def rule_g_setup_rebuilds_derived_data(ctx, fns):
     return n
 
 
+def rule_h_whole_data_once(ctx, fns, enum_fns):
+    """apply(ProjData&) / undo(ProjData&) of the base class normalise a whole data set: every (basic view/segment group, TOF bin) must be
+    normalised exactly once.  (1) the groups come from the one enumeration, asked for all segments and subset 0 of 1, which lists each
+    basic group once (C06's rule on that function); (2) the routine walks that list once and, inside, runs over the TOF bins
+    get_min_tof_pos_num()..get_max_tof_pos_num() in steps of one; (3) per turn: read the related viewgrams of (group, TOF bin),
+    normalise them with the per-viewgram routine of the same name, write them back - once each, in this order."""
+    from engine.loops import describe
+    from rules.C06 import rule_a as enumeration_lists_each_group_once
+
+    n = 0
+    e = [f for f in enum_fns if f.qn == "stir::detail::find_basic_vs_nums_in_subset" and f.body is not None]
+    if not e:
+        ctx.fail_broken("anchor stir::detail::find_basic_vs_nums_in_subset not found")
+        return 0
+    enumeration_lists_each_group_once(ctx, e[0], rule="C13.h-whole-data-each-viewgram-once")
+    seen = set()
+    for f in fns:
+        if f.qn != "stir::BinNormalisation::" + f.short or f.short not in ("apply", "undo") or f.body is None or not f.cfg_raw or not f.params or "ProjData &" not in f.params[0]["t"] or "const" in f.params[0]["t"].split("ProjData")[0] or (f.file, f.line) in seen:
+            continue
+        seen.add((f.file, f.line))
+        cfg = CFG(f)
+        pd = "v%d" % f.params[0]["d"]
+        defs = LocalDefs(f)
+        sub = {d: defs.single_def(d) for d in defs.decl}
+        lists = [c for c in f.calls() if (c.callee or "") == "stir::detail::find_basic_vs_nums_in_subset"]
+        ok1 = len(lists) == 1
+        det1 = "expected one call of the enumeration"
+        if ok1:
+            a = [key(x.strip(), False, sub) for x in lists[0].call_args()]
+            ok1 = a[2] == pd + ".get_min_segment_num()" and a[3] == pd + ".get_max_segment_num()" and a[4] == "0" and a[5] == "1"
+            det1 = "groups of all segments, subset 0 of 1" if ok1 else "the enumeration is asked for segments %s..%s, subset %s of %s" % tuple(a[2:6])
+        ctx.ob("C13.h-whole-data-each-viewgram-once", f.qn + "(ProjData&)", "all-groups", ok1, f.where(), det1)
+        n += 1
+        loops = [(describe(lp, names=False), lp) for lp in f.walk() if lp.k == "ForStmt"]
+        loops = [(d, lp) for d, lp in loops if d]
+        tof = [(d, lp) for d, lp in loops if re.search(r"get_min_tof_pos_num\(\)$", key([m for m in lp.c[0].walk() if m.k == "VarDecl" and m.c][0].c[0].strip(), False, sub) if [m for m in lp.c[0].walk() if m.k == "VarDecl" and m.c] else "") and lp.c[1].strip().k == "BinaryOperator" and lp.c[1].strip().op == "<=" and re.search(r"get_max_tof_pos_num\(\)$", key(lp.c[1].strip().c[1].strip(), False, sub)) and str(d.get("step")) == "1"]
+        lst = [(d, lp) for d, lp in loops if str(d.get("init")) == "0" and str(d.get("step")) == "1" and any(a is lp for t_ in tof for a in t_[1].ancestors())]
+        per = "stir::BinNormalisation::" + f.short
+        work = [c for c in f.calls() if c.k == "CXXMemberCallExpr" and (c.callee or "") == per and c.c and c.c[0].strip().k == "CXXThisExpr" and len(c.call_args()) == 1 and "RelatedViewgrams" in (c.call_args()[0].strip().type or "")]
+        ok2, det2 = False, "expected one loop over the list, one loop over the TOF bins inside it and one per-viewgram call"
+        if len(tof) == 1 and len(lst) == 1 and len(work) == 1:
+            tl, ll = tof[0][1], lst[0][1]
+            tv, iv = "v%d" % tof[0][0]["d"], "v%d" % lst[0][0]["d"]
+            vg = key(work[0].call_args()[0].strip())
+            gets = [c for c in tl.calls() if (c.callee or "").endswith("::get_related_viewgrams") and key(c.c[0].strip()) == pd]
+            sets = [c for c in tl.calls() if (c.callee or "").endswith("::set_related_viewgrams") and key(c.c[0].strip()) == pd and key(c.call_args()[0].strip()) == vg]
+            inside = all(any(a is tl for a in c.ancestors()) for c in work)
+            upper_ok = re.fullmatch(r"\(- .*\.size\(\).* 1\)|.*size\(\).*", str(lst[0][0].get("upper"))) is not None
+            args_ok = len(gets) == 1 and key(gets[0].call_args()[0].strip(), False, sub).endswith("[%s]" % iv) and "find_basic_vs_nums_in_subset(" in key(gets[0].call_args()[0].strip(), False, sub) and key(gets[0].call_args()[3].strip()) == tv and not gets[0].call_args()[3].strip().get("defarg")
+            order = len(gets) == 1 and len(sets) == 1 and cfg.dominates(gets[0], work[0]) and cfg.dominates(work[0], sets[0])
+            ok2 = inside and upper_ok and args_ok and order
+            det2 = "for every listed group and every TOF bin: read the related viewgrams, %s them once, write them back" % f.short if ok2 else "per-viewgram work inside the TOF loop=%s, list walked to its end=%s, viewgrams of (list[i], TOF bin)=%s, read-normalise-write order=%s" % (inside, upper_ok, args_ok, order)
+        ctx.ob("C13.h-whole-data-each-viewgram-once", f.qn + "(ProjData&)", "every-group-and-tof-bin-once", ok2, f.where(), det2)
+        n += 1
+    return n
+
+
 def run(ctx):
     ctx.explanation = (
         "Decides, for every BinNormalisation class compiled in this build: (a) apply and undo are duals - the argument is modified the "
@@ -355,6 +412,11 @@ def run(ctx):
     rule_e_trivial(ctx, units)
     rule_g_setup_rebuilds_derived_data(ctx, fns)
     ctx.require_count("C13.g-setup-rebuilds-derived-data", 2)
+    er = Request("src/recon_buildblock/find_basic_vs_nums_in_subset.cxx", fn=["stir::detail::find_basic_vs_nums_in_subset"])
+    eu = ctx.ex.get(er)
+    if eu is not None:
+        rule_h_whole_data_once(ctx, fns, eu.functions)
+        ctx.require_count("C13.h-whole-data-each-viewgram-once", 7)
     rule_f_no_hidden_state(ctx, fns)
     ctx.require_count("C13.f-no-hidden-state", 25)
     ctx.require_count("C13.a-apply-undo-dual", 10)
